@@ -51,6 +51,17 @@ def gen_graph(rng, maxn):
         a = rng.choice(items); rng.choice([eq, wc])[a].append(ghost)
     return {"keys": keys, "eq": [[x, eq[x]] for x in keys], "wc": [[x, wc[x]] for x in keys], "kind": kind}
 
+def gen_chain(rng, n):
+    """one long path of alternating equal / complementary links (an implementation that recurses along
+    a component, or is quadratic in its diameter, shows here)"""
+    items = list(range(n)); rng.shuffle(items)
+    eq = {x: [] for x in items}; wc = {x: [] for x in items}
+    for a, b in zip(items, items[1:]):
+        d = eq if rng.random() < 0.5 else wc
+        d[a].append(b); d[b].append(a)
+    keys = list(items); rng.shuffle(keys)
+    return {"keys": keys, "eq": [[x, eq[x]] for x in keys], "wc": [[x, wc[x]] for x in keys], "kind": "valid", "_oracle_only": True}
+
 def _t(x):
     return tuple(_t(y) for y in x) if isinstance(x, list) else x
 
@@ -65,6 +76,27 @@ def impl_case(case):
         return {"outcome": "assert"}
     except KeyError as e:
         return {"outcome": "keyerror"}
+    except RecursionError:
+        return {"outcome": "recursion-error"}
+    # the same through the designer's wrapper object, and once more on its own result (a closure is a
+    # symmetric set of links, so propagating it again must return it)
+    from peppercompiler.design.constraint_load import Constraints
+    c = Constraints()
+    for k in eq: c.init(k)
+    for k in eq: c.eq[k] = list(eq[k]); c.wc[k] = list(wc[k])
+    wrapper = "same"
+    try:
+        c.propagate()
+        if {k: set(v) for k, v in c.eq.items()} != {k: set(v) for k, v in E.items()} or {k: set(v) for k, v in c.wc.items()} != {k: set(v) for k, v in W.items()}:
+            wrapper = "Constraints.propagate differs from propagate_constraints"
+        else:
+            c.propagate()
+            if {k: set(v) for k, v in c.eq.items()} != {k: set(v) for k, v in E.items()} or {k: set(v) for k, v in c.wc.items()} != {k: set(v) for k, v in W.items()}:
+                wrapper = "propagating the closure a second time changes it"
+    except BaseException as e:
+        wrapper = "Constraints.propagate raised %s" % type(e).__name__
+    if wrapper != "same":
+        return {"outcome": "wrapper", "detail": wrapper}
     out = []
     for k in eq:
         if k not in E or k not in W:
@@ -93,6 +125,7 @@ def run(tier, seed, build):
     rng = random.Random(seed * 7919 + 7)
     ncases = 1500 if tier == "quick" else 30000
     cases = [gen_graph(rng, 40 if tier == "quick" else 60) for _ in range(ncases)]
+    cases += [gen_chain(rng, n) for n in ([1300] if tier == "quick" else [1300, 2200, 3100])]
     # number items injectively
     reqs = []
     for c in cases:
@@ -105,8 +138,15 @@ def run(tier, seed, build):
         eqs = [[num(k), [num(y) for y in v]] for k, v in c["eq"]]
         wcs = [[num(k), [num(y) for y in v]] for k, v in c["wc"]]
         c["_names"] = {v: repr(k) for k, v in ids.items()}
-        reqs.append(["C07", [keys, eqs, wcs]])
+        if not c.get("_oracle_only"): reqs.append(["C07", [keys, eqs, wcs]])
     model = fw.run_model(reqs)
+    # the long paths are decided against the breadth-first parity closure (the extracted model uses unary
+    # numbers and list sets: minutes per thousand items), not against the model
+    for c in cases:
+        if c.get("_oracle_only"):
+            want = closure({k: v for k, v in c.items() if not k.startswith("_")})
+            inv = {v: k for k, v in c["_names"].items()}
+            model.append(["Ok", [[str(inv[repr(_t(k))]), [str(inv[z]) for z in want[_t(k)][0]], [str(inv[z]) for z in want[_t(k)][1]]] for k in c["keys"]]])
     impl = fw.run_impl("props.c07", "impl_case", [{k: v for k, v in c.items() if not k.startswith("_")} for c in cases])
     failures = []; nontrivial = set(); dist = {"valid": 0, "dangling": 0, "sizes": {}, "odd_cycle": 0, "tuple_keys": 0}
     for c, m, r in zip(cases, model, impl):
@@ -137,7 +177,7 @@ def run(tier, seed, build):
     for f in failures:
         f["replay"] = {k: (str(v) if isinstance(v, dict) and any(not isinstance(kk, str) for kk in v) else v) for k, v in f["replay"].items()}
     return {"evaluations": len(cases), "distinct_nontrivial": len(nontrivial),
-            "rule": "random symmetric multigraphs from planted parity classes (long even and odd paths) + random extra links, self links, odd cycles, isolated items, int and (k,i) tuple keys, shuffled key and adjacency order; 6% with a dangling link target (assertion stream). Non-trivial = some item has a complement or >2 equals",
+            "rule": "random symmetric multigraphs from planted parity classes (long even and odd paths) + random extra links, self links, odd cycles, isolated items, int and (k,i) tuple keys, shuffled key and adjacency order; 6% with a dangling link target (assertion stream); plus long single paths (1300+ items) of alternating links; every valid case is also run through constraint_load.Constraints.propagate, twice (the closure propagated again must not change). Non-trivial = some item has a complement or >2 equals",
             "samples": [{k: v for k, v in c.items() if not k.startswith("_")} for c in cases[3:6]],
             "distribution": dist, "failures": failures}
 
